@@ -112,6 +112,8 @@ def run(eng, R):
     R.rule("Cget", "property getters of the fit classes do not write configuration state (reading one quantity never changes another)", 60)
     from .c19 import NONSTATE
 
+    check_lazy_push(eng, R)
+
     for cn in FITS:
         ctx = p.find_class(cn)
         G, trace = nexus_model(p, ctx)
@@ -324,6 +326,40 @@ def run(eng, R):
                                                "_data_container._unprocessed_entries", "_data_container._error_dicts", "_param_model._support",
                                                "_param_model._processed_entries", "_param_model._unprocessed_entries")]
             R.ob("Cget", "%s:%s" % (cn, f.qualname), not bad, eng.where(f), "%s (as %s) is a getter but writes %s" % (f.qualname, cn, bad[:4]), nontrivial=bool(w))
+
+
+def check_lazy_push(eng, R):
+    """Every fit getter that returns a parameter-dependent quantity of the parametric model (values, uncertainties, matrices) first pushes the current
+    parameter values into the model: the model's stored values are a cache of the parameter nodes and can lag behind (load_state, a multi-fit, the minimiser)."""
+    p = eng.p
+    R.rule("Cpush", "fit getters that return parameter-dependent quantities of the parametric model push the current parameter values into it first", 20)
+    for cn in FITS:
+        c = p.find_class(cn)
+        for name in sorted(c.all_methods()):
+            pr = c.find_prop(name)
+            if pr is None or pr.fget is None:
+                continue
+            f = pr.fget
+            g = None
+            for r in ast.walk(f.node):
+                if not (isinstance(r, ast.Return) and r.value is not None):
+                    continue
+                reads = [a.attr for a in ast.walk(r.value) if isinstance(a, ast.Attribute) and self_attr(a.value) == "_param_model"]
+                lazy = [a for a in reads if a in ("data", "y", "x", "err", "x_err", "y_err") or a.endswith(("cov_mat", "cor_mat", "cov_mat_inverse"))]
+                if not lazy:
+                    continue
+                g = g or eng.cfg(f)
+                rn = common.cfg_node_of(g, r)
+
+                def pushes(n):
+                    st = n.stmt
+                    return n.kind == "stmt" and isinstance(st, ast.Assign) and isinstance(st.targets[0], ast.Attribute) and st.targets[0].attr == "parameters" \
+                        and self_attr(st.targets[0].value) == "_param_model" and isinstance(st.value, ast.Attribute) and is_self(st.value.value) and st.value.attr == "parameter_values"
+
+                ok, _ = g.dominated_by(rn.id, pushes)
+                R.ob("Cpush", "%s:%s" % (cn, f.qualname), ok, (f.file, r.lineno),
+                     "%s (as %s) returns the model's stored %s without pushing the current parameter values first: after load_state / a multi-fit / any path that moved the "
+                     "parameters without touching the model it shows the values of the previous parameters" % (f.qualname, cn, "/".join(lazy)))
 
 
 def _first_fit_arg(call, pos=0):
